@@ -258,12 +258,21 @@ func (sb SameBatchArg) Check(r *Run) {
 		fn := Callee(info, call)
 		if ns.Has(fn) {
 			n++
-			if sb.Arg >= len(call.Args) {
+			argIdx := sb.Arg
+			if argIdx < 0 {
+				// the argument whose static type is the batch interface
+				for i, a := range call.Args {
+					if t := info.TypeOf(a); t != nil && strings.HasSuffix(t.String(), "common/db.Batch") {
+						argIdx = i
+					}
+				}
+			}
+			if argIdx < 0 || argIdx >= len(call.Args) {
 				okAll = false
 				firstBad = call
 				return true
 			}
-			id, ok := ast.Unparen(call.Args[sb.Arg]).(*ast.Ident)
+			id, ok := ast.Unparen(call.Args[argIdx]).(*ast.Ident)
 			if !ok {
 				okAll = false
 				firstBad = call
